@@ -47,9 +47,12 @@ ASSUME ndJsonSerialize(Out("rx_connack.ndjson"),
 
 \* ------------------------------------------------------------------------------------------------ AUTH
 AuthPool == {PS(21, F("m", 3)), PS(22, F("chal", 4)), PS(31, F("go on", 5))}
+\* the Authentication Method is mandatory in AUTH (omitting it is a protocol error), the data is optional;
+\* only reason 0x00 without any property may use the shortened forms
 AuthCases ==
-  UNION { UNION { { [Case0 EXCEPT !.t = "AUTH", !.rc = rc, !.props = q, !.form = 2] : q \in WithUps(p), rc \in {0, 24, 25} } : p \in Orders(S) } : S \in SUBSET AuthPool }
-  \cup { [Case0 EXCEPT !.t = "AUTH", !.rc = 0, !.form = 0], [Case0 EXCEPT !.t = "AUTH", !.rc = 0, !.form = 1], [Case0 EXCEPT !.t = "AUTH", !.rc = 24, !.form = 1] }
+  UNION { UNION { { [Case0 EXCEPT !.t = "AUTH", !.rc = rc, !.props = q, !.form = 2] : q \in WithUps(p), rc \in {0, 24, 25} } : p \in Orders(S) }
+          : S \in {T \in SUBSET AuthPool : PS(21, F("m", 3)) \in T} }
+  \cup { [Case0 EXCEPT !.t = "AUTH", !.rc = 0, !.form = 0], [Case0 EXCEPT !.t = "AUTH", !.rc = 0, !.form = 1] }
   \cup { [Case0 EXCEPT !.t = "AUTH", !.rc = 24, !.form = 2, !.props = <<PS(21, F("m~", n)), PS(22, F("d", m))>>] : n \in SLens, m \in {0, 128, 65535} }
 ASSUME ndJsonSerialize(Out("rx_auth.ndjson"), SetToSeq({[c |-> c, len |-> RxLen(c), acc |-> [ok |-> AuthAcc(c)]] : c \in AuthCases}))
 
